@@ -282,6 +282,8 @@ func Conclude(cfg *Config, sum *Summary) int {
 				_, again = c12kAll()
 				_, again2 := c12kKeeperAll(3)
 				again = append(again, again2...)
+				_, again3 := c12kBoostAll()
+				again = append(again, again3...)
 			}
 			for _, a := range again {
 				fs = append(fs, a.Finding)
